@@ -52,6 +52,15 @@ theorem front_full_meta_is_cfg (env : Env) (input : Str) (fm : FrontMatter)
       cases this
   rw [this, Bool.or_false]
 
+/-- WITH front matter the output of the metadata-only analysis carries no diagnostic -/
+theorem front_meta_output_diags (env : Env) (input : Str) (fm : FrontMatter)
+    (h : parseFrontmatter env.cs input = some fm) (r2 : Col α)
+    (h2 : (parseMetadata (α := α) env input).output = some r2) : r2.diags = #[] := by
+  unfold parseMetadata at h2
+  simp only [mfront_pullMetaEvents env.cs env.ext input fm h] at h2
+  cases h2
+  rfl
+
 /-- WITH front matter and WITHOUT the MODES extension the full report has no metadata diagnostic -/
 theorem front_full_no_modes (env : Env) (input : Str) (fm : FrontMatter)
     (h : parseFrontmatter env.cs input = some fm) (hm : env.ext.has Gen.EXT_MODES = false) (r1 : Col α)
@@ -78,11 +87,7 @@ theorem front_full_no_modes (env : Env) (input : Str) (fm : FrontMatter)
     simp only at h1 h2
     exact events_agree_md env input _ _ hk (pullEvents_warnOK env.cs env.ext input)
       (pullMetaEvents_warnOK env.cs env.ext input) r1 r2 h1 h2
-  have e2 : r2.diags = #[] := by
-    unfold parseMetadata at h2
-    simp only [mfront_pullMetaEvents env.cs env.ext input fm h] at h2
-    cases h2
-    rfl
+  have e2 : r2.diags = #[] := front_meta_output_diags env input fm h r2 h2
   have := congrArg MD.ds e
   simp only [Col.md] at this
   rw [this, e2]
